@@ -33,6 +33,9 @@ dec_other = z3.Function('decode_other_codec', _I, BYTES, STR)
 nl_other = z3.Function('newline_other', _I, STR, STR)
 
 
+mlog = z3.Function('math_log', z3.RealSort(), z3.RealSort())
+
+
 def A(it, fact, name):
     """Assume an instance of a library fact and record the contract name."""
     it.env.use(name)
